@@ -163,7 +163,14 @@ public:
         // Normalize
         // If v0 is in the null space of A (e.g. A is a zero or nilpotent matrix),
         // A * v0 is zero and cannot be normalized: start from v0 itself
-        const RealScalar vnorm = m_op.norm(v);
+        RealScalar vnorm = m_op.norm(v);
+        // The start vector is not normalized before the operator is applied: the entries of A * v0
+        // can be finite while their squares overflow. Bring them into range first
+        if (!(std::isfinite)(vnorm))
+        {
+            v /= v.cwiseAbs().maxCoeff();
+            vnorm = m_op.norm(v);
+        }
         if (vnorm < m_near_0)
             v.noalias() = v0 / v0norm;
         else
